@@ -1,9 +1,13 @@
 PROPS["C15"] = {
         "families": {"valid": {"quick": 8, "thorough": 48}},
-        "claim": "Theorems (Lean kernel) about the validator model for every dictionary, message and settings: rule pipeline order and which settings switch "
-                 "which rule off, unknown MsgType / missing required tag / empty value / duplicate tag / undefined tag are named with the FIX reason and tag "
-                 "(see Props/C15.lean for the exact list); acceptance of every conforming instance tree and the group-walk defects are stated as "
-                 "`def C15_..._full : Prop` and covered by the monitor on generated instances only.",
+        "claim": "Theorems (Lean kernel) about the validator model for every dictionary view, message and all 2^5 settings: C15_accepts — a conforming instance tree WITH "
+                 "repeating groups (nested, optional members, any number of entries) is accepted, with validateWalk's own fuel budget proved adequate for definitions whose member "
+                 "lists are shorter than 3997 and whose tags are pairwise distinct (both evaluated on every shipped dictionary by the monitor: clause dict_wf); one theorem per "
+                 "defect kind naming reason and tag: unknown MsgType (11), required missing at top level (1) and inside a group entry incl. the end of an entry (1), tag not "
+                 "defined for the type (2), tag not in dictionary (0), empty value (4, both routes), bad enum (5), bad format (6), group count mismatch (16), member out of "
+                 "order for a top-level group (1/2/16 in the allowed set), header/body/trailer order (14), duplicate tag (13); and which settings switch which rule off. "
+                 "Decided witnesses show the three validator defects of the unchanged tree that were fixed (multiple-value enums, group tail, MsgType vs transport enum). "
+                 "Monitor only: member order in NESTED groups or involving the delimiter.",
         "note": "Lean kernel + propext/Classical.choice/Quot.sound; the validator model (Qfx/Model/Validate.lean) is tied to validation.go by running both on ~6000 "
                 "generated messages per run over all shipped dictionaries and all 2^5 settings; dictionaries reach the model through the C19 builder model from the "
                 "independently read specification; the header/body/trailer sectioning is taken from the real parser (codec family); value types via the C14 model",
